@@ -14,15 +14,15 @@ it into non-empty `recv()` results, the reader yields exactly the LF-terminated 
 (an unterminated tail is never delivered). -/
 theorem C06_chunking (chunks : List Bytes) (hne : ∀ c ∈ chunks, c ≠ [])
     (hcr : CRLFOnly chunks.flatten) :
-    sockRead [] chunks = (splitLF [] chunks.flatten).1 := by
-  sorry
+    sockRead [] chunks = (splitLF [] chunks.flatten).1 :=
+  sockRead_eq [] chunks hne (chunks_noBareCR chunks hcr)
 
 /-- **Independence of packet boundaries.** -/
 theorem C06_independent (chunks chunks' : List Bytes) (hne : ∀ c ∈ chunks, c ≠ [])
     (hne' : ∀ c ∈ chunks', c ≠ []) (hflat : chunks.flatten = chunks'.flatten)
     (hcr : CRLFOnly chunks.flatten) :
     sockRead [] chunks = sockRead [] chunks' := by
-  sorry
+  rw [C06_chunking chunks hne hcr, C06_chunking chunks' hne' (hflat ▸ hcr), hflat]
 
 /-- **Exactly the original lines, each once, complete and in order**: a stream made of terminated
 lines (LF or CRLF; no other CR) is handed on line by line whatever the chunking. -/
@@ -31,7 +31,7 @@ theorem C06_lines (lines : List Bytes) (chunks : List Bytes)
     (hcr : CRLFOnly lines.flatten)
     (hne : ∀ c ∈ chunks, c ≠ []) (hflat : chunks.flatten = lines.flatten) :
     sockRead [] chunks = lines := by
-  sorry
+  rw [C06_chunking chunks hne (hflat ▸ hcr), hflat, splitLF_lines lines hl]
 
 /-- non-vacuity: a CRLF stream cut between CR and LF and inside a line -/
 example : sockRead [] [[72, 101], [108, 13], [10, 87, 10]] = [[72, 101, 108, 13, 10], [87, 10]] ∧
